@@ -254,6 +254,14 @@ fn observe(n: &Node, w: &World, delivered: &[(String, BlockView)]) -> BTreeMap<S
     }
     let tip = n.tip();
     out.insert("tip|chain".into(), format!("{}/{:x}", tip.0, tip.1));
+    // by-number answers of the canonical chain (number -> hash index, ancestor walk from the tip): a read cache in front of
+    // them must follow every reorganisation, completed or abandoned
+    let snap = n.shared.snapshot();
+    for num in 0..=16u64 {
+        out.insert(format!("get_block_hash|#{num}"), q(|| opt_s(st.get_block_hash(num), |h| format!("{:x}", h))));
+        out.insert(format!("snapshot_get_block_hash|#{num}"), q(|| opt_s(snap.get_block_hash(num), |h| format!("{:x}", h))));
+        out.insert(format!("get_ancestor|#{num}"), q(|| opt_s(snap.get_ancestor(&tip.1, num), |h| format!("{:x}", h.hash()))));
+    }
     out
 }
 
